@@ -213,7 +213,55 @@ def oracle_file(case) -> list:
     path = os.path.join(REPO, "tests", case["file"])
     if case.get("variant") in ("icode-runs", "reverse-numbering"):
         return _with_renumbered_copy(path, case)
+    if case.get("variant") == "stretched-glycosidic":
+        return _with_stretched_copy(path, case)
     return _oracle_path(path, case)
+
+
+STRETCH = [0.85, 1.1, 1.3, 1.55, 1.61, 1.75, 2.0, 2.3, 2.45]
+
+
+def _with_stretched_copy(path, case):
+    """the PDB file with every base slid rigidly along its own glycosidic bond (C1'->N9 for a base that has N9, else
+    C1'->N1) so that the bond measures 0.85 ... 2.45 A, residue after residue: the dihedral about that bond and all
+    bond angles stay what they were, only the bond LENGTH changes - refined, strained and coarse models do have such
+    bonds, and a torsion angle is defined whatever the bond lengths are"""
+    from rnaverif.runner import WORK_DIR
+
+    with open(path) as f:
+        lines = f.readlines()
+    groups, order = {}, []
+    for k, line in enumerate(lines):
+        if line.startswith(("ATOM", "HETATM")) and len(line) >= 54:
+            key = (line[21], line[22:27], line[16])
+            if key not in groups:
+                groups[key] = {}
+                order.append(key)
+            groups[key].setdefault(line[12:16].strip(), k)
+    xyz = lambda k: np.array([float(lines[k][30:38]), float(lines[k][38:46]), float(lines[k][46:54])])
+    for rank, key in enumerate(order):
+        g = groups[key]
+        n = g.get("N9", g.get("N1"))
+        if "C1'" not in g or n is None:
+            continue
+        c1, nn = xyz(g["C1'"]), xyz(n)
+        d = float(np.linalg.norm(nn - c1))
+        if d < 0.5:
+            continue
+        shift = (nn - c1) / d * (STRETCH[(rank + case.get("phase", 0)) % len(STRETCH)] - d)
+        for name, k in g.items():
+            if "'" in name or name in ("P", "OP1", "OP2", "OP3", "O1P", "O2P", "O3P") or name.startswith("H"):
+                continue
+            q = xyz(k) + shift
+            lines[k] = lines[k][:30] + f"{q[0]:8.3f}{q[1]:8.3f}{q[2]:8.3f}" + lines[k][54:]
+    os.makedirs(WORK_DIR, exist_ok=True)
+    tmp = os.path.join(WORK_DIR, f"c18_{os.getpid()}_stretch.pdb")
+    with open(tmp, "w") as f:
+        f.writelines(lines)
+    try:
+        return _oracle_path(tmp, case)
+    finally:
+        os.remove(tmp)
 
 
 def _with_renumbered_copy(path, case):
@@ -436,6 +484,7 @@ def plan(tier, seed):
         specs += [{"kind": "corpus", "files": [f]} for f in QUICK_FILES]
         specs += [{"kind": "corpus", "files": ["1ATO.pdb"], "variant": "icode-runs"}, {"kind": "corpus", "files": ["1ATO.pdb"], "variant": "row-selection"},
                   {"kind": "corpus", "files": ["1ATO.pdb"], "variant": "reverse-numbering"},
+                  {"kind": "corpus", "files": ["1ATO.pdb"], "variant": "stretched-glycosidic"}, {"kind": "corpus", "files": ["488d.pdb"], "variant": "stretched-glycosidic", "phase": 4},
                   {"kind": "corpus", "files": ["184D.cif"], "variant": "row-selection"}]
     else:
         specs += [{"kind": "built", "examples": 60000, "seed": seed * 1000 + k} for k in range(16)]
@@ -444,6 +493,7 @@ def plan(tier, seed):
         specs += [{"kind": "corpus", "files": [f], "variant": "icode-runs"} for f in corpus_files() if f.endswith(".pdb")]
         specs += [{"kind": "corpus", "files": [f], "variant": "row-selection"} for f in corpus_files()]
         specs += [{"kind": "corpus", "files": [f], "variant": "reverse-numbering"} for f in corpus_files() if f.endswith(".pdb")]
+        specs += [{"kind": "corpus", "files": [f], "variant": "stretched-glycosidic", "phase": ph} for f in corpus_files() if f.endswith(".pdb") for ph in (0, 3, 6)]
     return specs
 
 
@@ -500,10 +550,12 @@ def run_shard(spec) -> ShardResult:
             case = {"file": fn}
             if spec.get("variant"):
                 case["variant"] = spec["variant"]
+            if spec.get("phase"):
+                case["phase"] = spec["phase"]
             check_case(PROP_ID, oracle_file, case, res, to_json=lambda c: {k: v for k, v in c.items() if not k.startswith("_")})
             n_chi, n_tab = case.get("_counts", (0, 0))
             res.note_case({"file": fn, "variant": spec.get("variant"), "chi_values": n_chi, "table_values": n_tab}, n_chi > 0,
-                          ["corpus-file"] + ({"icode-runs": ["renumbered-onto-insertion-code-runs"], "row-selection": ["table-is-a-row-selection"], "reverse-numbering": ["chain-numbered-3'-to-5'"]}.get(spec.get("variant"), [])))
+                          ["corpus-file"] + ({"icode-runs": ["renumbered-onto-insertion-code-runs"], "row-selection": ["table-is-a-row-selection"], "reverse-numbering": ["chain-numbered-3'-to-5'"], "stretched-glycosidic": ["glycosidic-bonds-0.85-to-2.45-A"]}.get(spec.get("variant"), [])))
             res.extra["corpus_chi_values"] = res.extra.get("corpus_chi_values", 0) + n_chi
             res.extra["corpus_table_values"] = res.extra.get("corpus_table_values", 0) + n_tab
         res.exhaustive = False
